@@ -30,6 +30,9 @@
 extern int pthread_threadid_np(pthread_t, __uint64_t *);
 #endif
 
+#ifdef MUSCLE_VERIF_HOOKS
+# include "support/VerifHooks.h"
+#endif
 namespace muscle {
 
 Thread :: Thread(bool useMessagingSockets, ICallbackMechanism * optCallbackMechanism)
@@ -187,6 +190,9 @@ status_t Thread :: SendMessageAux(int whichQueue, const MessageRef & replyRef)
       MRETURN_ON_ERROR(tsd._messages.AddTail(replyRef));
       sendNotification = (tsd._messages.GetNumItems() == 1);
    }
+#ifdef MUSCLE_VERIF_HOOKS
+   MUSCLE_VERIF_POINT(MVH_THREAD_SEND_AFTER_ENQUEUE, this, (whichQueue*2)+(sendNotification?1:0));
+#endif
 
    if (sendNotification)
    {
@@ -265,6 +271,9 @@ status_t Thread :: WaitForNextMessageAux(ThreadSpecificData & tsd, MessageRef & 
       uint8 bytes[256];
       (void) recv_ignore_eintr(tsd._messageSocket.GetFileDescriptor(), (char *)bytes, sizeof(bytes), 0);
    }
+#ifdef MUSCLE_VERIF_HOOKS
+   MUSCLE_VERIF_POINT(MVH_THREAD_WAIT_AFTER_DRAIN, this, 0);
+#endif
 
    status_t ret;
    {
@@ -275,6 +284,9 @@ status_t Thread :: WaitForNextMessageAux(ThreadSpecificData & tsd, MessageRef & 
 
    if (ret.IsOK())      return ret;
    if (wakeupTime == 0) return B_TIMED_OUT;
+#ifdef MUSCLE_VERIF_HOOKS
+   MUSCLE_VERIF_POINT(MVH_THREAD_WAIT_BEFORE_BLOCK, this, 0);
+#endif
 
    // If we got here, no Message was available, so we'll have to wait until there is one (or until wakeupTime)
    if (_useMessagingSockets)
@@ -453,7 +465,13 @@ void Thread::InternalThreadEntryAux()
       if (ownerTSD._messages.HasItems()) SignalOwner();
    }
 
+#ifdef MUSCLE_VERIF_HOOKS
+   MUSCLE_VERIF_POINT(MVH_THREAD_INTERNAL_ENTRY, this, 0);
+#endif
    InternalThreadEntry();
+#ifdef MUSCLE_VERIF_HOOKS
+   MUSCLE_VERIF_POINT(MVH_THREAD_INTERNAL_EXIT, this, 0);
+#endif
    _threadData[MESSAGE_THREAD_INTERNAL]._messageSocket.Reset();  // this will wake up the owner thread with EOF on socket
 
    {
